@@ -1,4 +1,6 @@
 import PdshVerif.Dsh.FanG
+import PdshVerif.Dsh.FanRelay
+import PdshVerif.Base.Hex
 import Driver.Util
 
 /-! engine `fan`: trace acceptor for the projected traces of the `sched` harness.
@@ -10,6 +12,13 @@ import Driver.Util
     ev D <lock|wait|wake 0|wake 1|relock|create i|unlock|return>                  -> ok | reject ..
     ev W<i> <connectBegin|connectEnd|destroyBegin|destroyEnd|lock|signal|broadcast|unlock>  -> ok | reject ..
     end <ok|deadlock|other>          ok: the model must be Final; deadlock: nothing enabled
+    RELAY MODE (the protocol composed with the relay, `Dsh/FanRelay.lean`, the LTS of Props/C03 `EndToEnd`):
+    initr <if|while> <f> <N> <sopt>  start a new trace in relay mode                     -> ok
+    rd W<i> <0|1> <hex|->            worker i read a chunk from its stdout (0) / stderr (1)  -> ok | reject ..
+    fin W<i> <0|1>                   that stream is over (EOF or error seen, descriptor closed) -> ok | reject ..
+    cfail W<i>                       rcmd_connect of target i failed: no streams            -> ok | reject ..
+    (in relay mode every `ev` goes through `FanRelay.step`: a worker may leave its read loop only when its polled
+    streams are over, and reads happen only inside the loop)
     After a reject every line up to the next `init` answers `skip`.
     The transition function is `PdshVerif.Dsh.FanG.step`, the one the theorems are about: the LTS with the
     signalling discipline left open.  An observed call is mapped to a label by what it DOES in the state it is made
@@ -24,6 +33,16 @@ open PdshVerif.Dsh.FanG
 structure Acc where
   st : Option St := none
   dead : Bool := false
+  relay : Bool := false
+  evs : List (PdshVerif.Relay.Key × PdshVerif.Relay.LEv) := []
+  sopt : Bool := false
+  nofd : List Nat := []
+
+open PdshVerif.Dsh in
+def Acc.rst (a : Acc) (s : St) : FanRelay.St := { fan := s, evs := a.evs, sopt := a.sopt, nofd := a.nofd }
+
+open PdshVerif.Dsh in
+def Acc.ofRst (a : Acc) (r : FanRelay.St) : Acc := { a with st := some r.fan, evs := r.evs, nofd := r.nofd }
 
 def parseW (t : String) : Option Nat :=
   if t.startsWith "W" then (t.drop 1).toNat? else none
@@ -57,6 +76,22 @@ def parseLabels : List String → List Label
 
 /-- perform the observed call: the first candidate label that is enabled -/
 def stepObserved (s : St) (ls : List Label) : Option St := ls.findSome? (step s)
+
+open PdshVerif.Dsh in
+/-- the same in relay mode -/
+def stepObservedR (r : FanRelay.St) (ls : List Label) : Option FanRelay.St :=
+  ls.findSome? fun l => FanRelay.step r (.fan l)
+
+open PdshVerif.Dsh in
+/-- a relay line: which label of the composed LTS it stands for -/
+def parseRelay : List String → Option FanRelay.Label
+  | ["rd", w, strm, hx] =>
+    match parseW w, PdshVerif.Hex.decode (if hx = "-" then "" else hx) with
+    | some i, some b => some (.ev (i, strm = "1") (.feed b))
+    | _, _ => none
+  | ["fin", w, strm] => (parseW w).map fun i => .ev (i, strm = "1") .finish
+  | ["cfail", w] => (parseW w).map .cfail
+  | _ => none
 
 def enabledNames (s : St) : List String :=
   (if dEnabled s then ["D"] else []) ++
@@ -104,6 +139,21 @@ def stepLine (a : Acc) (line : String) : Acc × String :=
       let v := if v = "if" then Variant.ifWait else Variant.whileWait
       ({ st := some (init v f n), dead := false }, "ok")
     | _, _ => (a, "bad-line")
+  | ["initr", v, f, n, sopt] =>
+    match f.toNat?, n.toNat? with
+    | some f, some n =>
+      let v := if v = "if" then Variant.ifWait else Variant.whileWait
+      ({ st := some (init v f n), dead := false, relay := true, evs := [], sopt := sopt = "1", nofd := [] }, "ok")
+    | _, _ => (a, "bad-line")
+  | "rd" :: _ | "fin" :: _ | "cfail" :: _ =>
+    if a.dead then (a, "skip") else
+    match a.st, parseRelay (Driver.words line) with
+    | some s, some l =>
+      if !a.relay then (a, "bad-line") else
+      match PdshVerif.Dsh.FanRelay.step (a.rst s) l with
+      | some r => (a.ofRst r, "ok")
+      | none => ({ a with dead := true }, s!"reject relay event not enabled in the composed model: {line} ({showSt s})")
+    | _, _ => (a, "bad-line")
   | "st" :: rest =>
     if a.dead then (a, "skip") else
     match a.st, rest with
@@ -117,6 +167,13 @@ def stepLine (a : Acc) (line : String) : Acc × String :=
     match a.st, parseLabels rest with
     | _, [] => ({ a with dead := true }, "reject unknown event " ++ " ".intercalate rest)
     | some s, ls =>
+      if a.relay then
+        match stepObservedR (a.rst s) ls with
+        | some r => (a.ofRst r, "ok")
+        | none =>
+          let why := if (stepObserved s ls).isSome then " (enabled in the protocol LTS, refused by the composition: the worker leaves its read loop before its polled streams are over)" else ""
+          ({ a with dead := true }, s!"reject not enabled in the model{why}: {" ".intercalate rest} ({showSt s})")
+      else
       match stepObserved s ls with
       | some s' => ({ a with st := some s' }, "ok")
       | none => ({ a with dead := true }, s!"reject not enabled in the model: {" ".intercalate rest} ({showSt s})")
